@@ -324,6 +324,10 @@ func checkMain(args []string) int {
 	if len(items) == 0 {
 		machinery = append(machinery, "no obligations generated")
 	}
+	solverErrors.Range(func(k, _ interface{}) bool {
+		machinery = append(machinery, "solver rejected a generated script: "+k.(string))
+		return true
+	})
 	wall := time.Since(t0).Seconds()
 	if *only == "" && !*noEv {
 		if err := writeEvidence(w, *prop, *tier, seed, ps, gens, items, explicit, trivial, canaries, vacuous, wall, tLoad, tGen, violations, kf); err != nil {
